@@ -51,3 +51,14 @@ Theorem C03_whole_run_at_most : forall w o t,
   starts_of t (run w o) <= if Nat.ltb t (length (tests w)) then reps o else 0.
 Proof. exact starts_at_most. Qed.
 Print Assumptions C03_whole_run_at_most.
+
+(* observation level: the predicate Obs.c03_ok evaluated on the implementation's observation holds of the model's
+   observation of every run; a sequential case without correspondence difference therefore satisfies it *)
+From ZT Require Import Chk_World Obs ModelCase ObsC03.
+Theorem C03_predicate_holds_of_model : forall w o inj,
+  wf (lw w) -> (forall t, In t (tests w) -> t_layer t < nlayers (lw w)) -> c03_ok (model_case w o inj) = true.
+Proof. exact c03_ok_model. Qed.
+Print Assumptions C03_predicate_holds_of_model.
+Theorem C03_check_sound : forall c, agree c = true -> wf_case c = true -> Nat.ltb 1 (o_procs (Chk_World.o c)) = false -> c03_ok c = true.
+Proof. exact c03_check_sound. Qed.
+Print Assumptions C03_check_sound.
